@@ -804,3 +804,70 @@ pub fn crash_sessions(bin: &str, seed: u64, thorough: bool) -> E2eResult {
         inconclusive: a.inconclusive,
     }
 }
+
+// ------------------------------------------------------------------ C14 E2E: isolation through the real rpc.rs
+
+/// Payment A gets stuck inside `pay` (never returns) or inside `waitsendpay` (part never
+/// resolves); payment B for another hash must still be paid and settled promptly. This is the
+/// only place where the real socket transport of rpc.rs takes part in an isolation check.
+pub fn c14_e2e(bin: &str, seed: u64, sessions: u64) -> E2eResult {
+    let acc = Mutex::new(Acc::new());
+    let next = std::sync::atomic::AtomicU64::new(0);
+    std::thread::scope(|sc| {
+        for _ in 0..crate::checks::threads().min(8) {
+            sc.spawn(|| loop {
+                let i = next.fetch_add(1, std::sync::atomic::Ordering::Relaxed);
+                if i >= sessions {
+                    break;
+                }
+                let mut rng = Rng::new(mix(seed, 0xC14 + i));
+                let at: &'static str = if i % 2 == 0 { "pay" } else { "waitsendpay" };
+                let height = 2000u32;
+                let mut s = match Session::start(bin, &json!({"trampoline-mpp-timeout": 30}), i % 3 == 0, height, None) {
+                    Ok((Some(s), _)) => s,
+                    _ => {
+                        acc.lock().unwrap().inconclusive.push("plugin did not start".into());
+                        continue;
+                    }
+                };
+                let n_a = 1 + (i % 3) as usize;
+                let mut a_ids = vec![];
+                for k in 0..n_a {
+                    let a = new_invoice(&mut rng, Some(1_000_000), Hints::None);
+                    s.stuck.push((hex::encode(a.hash), at));
+                    let id = format!("a{k}");
+                    s.send_doc(&hook(&id, tramp_request(&a, k as u64, 1_005_000, 1_005_000, height + 1100, height)), 0);
+                    a_ids.push(id);
+                }
+                // let A reach its stuck point
+                let want = n_a;
+                s.pump_until(move |s| s.pays_seen.len() >= want || s.out_eof, Duration::from_secs(8));
+                s.pump_for(Duration::from_millis(50));
+                let b = new_invoice(&mut rng, Some(2_000_000), Hints::None);
+                s.preimages.insert(hex::encode(b.hash), b.preimage);
+                let t0 = Instant::now();
+                s.send_doc(&hook("b", tramp_request(&b, 99, 2_010_000, 2_010_000, height + 1100, height)), 0);
+                let ok = s.pump_until(|s| s.reply("b").is_some() || s.out_eof, Duration::from_secs(10));
+                let el = t0.elapsed();
+                let kind = s.reply("b").and_then(result_of).map(|x| x.0);
+                let a_answered: Vec<&String> = a_ids.iter().filter(|id| s.reply(id).is_some()).collect();
+                let mut g = acc.lock().unwrap();
+                g.e("R14a-e2e", 1);
+                g.class(format!("A stuck in {at} x{n_a}"));
+                if !ok || kind.as_deref() != Some("resolve") {
+                    g.v(&format!("R14a|e2e-other-hash-blocked|{at}"), format!("{n_a} payment(s) stuck in {at}; payment B for another hash answered {:?} after {el:?} (limit 10 s)", s.reply("b").map(|r| r["result"].to_string())));
+                }
+                if !a_answered.is_empty() {
+                    g.v(&format!("R14a|e2e-stuck-payment-answered|{at}"), format!("HTLCs {a_answered:?} of the stuck payment were answered"));
+                }
+                if g.samples.len() < 2 {
+                    g.samples.push(json!({"stuck_in": at, "stuck_payments": n_a, "b_answer_ms": el.as_millis() as u64}));
+                }
+                drop(g);
+                s.finish();
+            });
+        }
+    });
+    let a = acc.into_inner().unwrap();
+    E2eResult { coverage: json!({"sessions": sessions, "classes": a.classes, "samples": a.samples}), violations: a.viol, evals: a.evals, inconclusive: a.inconclusive }
+}
